@@ -7,7 +7,8 @@ K = sys.argv[1] if len(sys.argv) > 1 else '/verif/bin/ketosa'
 own = len(sys.argv) > 2 and sys.argv[2] == 'only-own'
 env = dict(os.environ, GOFLAGS='-mod=mod', GOPROXY='off', KETOSA_SYMBOLS='/verif/symbols.json'); env.pop('GOWORK', None)
 props = subprocess.run([K, '-list'], capture_output=True, text=True, env=env).stdout.split()
-ids = sorted(d for d in os.listdir('/verif/neutral') if d.startswith('C') and os.path.isdir('/verif/neutral/' + d))
+import re
+ids = sorted(d for d in os.listdir('/verif/neutral') if d.startswith('C') and os.path.isdir('/verif/neutral/' + d) and re.search(os.environ.get('NEUTRAL_IDS', '.'), d))
 jobs = [(n, p) for n in ids for p in props if not own or p == json.load(open(f'/verif/neutral/{n}/meta.json'))['property']]
 def run(job):
     n, p = job
@@ -22,7 +23,10 @@ with cf.ThreadPoolExecutor(int(os.environ.get('JOBS', '6'))) as ex:
         elif not j.get('applied'): res[n]['not_applied'].append(p)
         elif j.get('fired'): res[n]['alarms'][p] = j['fired']
 old = {}
-if own and os.path.exists('/verif/neutral/MATRIX.json'): old = json.load(open('/verif/neutral/MATRIX.json'))
+if (own or os.environ.get('NEUTRAL_IDS')) and os.path.exists('/verif/neutral/MATRIX.json'): old = json.load(open('/verif/neutral/MATRIX.json'))
+if os.environ.get('NEUTRAL_IDS') and not own:
+    for n, v in old.items():
+        if n not in res: res[n] = v
 if own:
     for n in ids:
         o = old.get(n, {'alarms': {}, 'not_applied': [], 'errors': {}})
